@@ -538,6 +538,8 @@ def correspond(ctx):
             for x in r['scheds']:
                 if x[2] in ('tempo', 'beats_add'):
                     c.count('retime by ' + str(x[0]).rstrip('0123456789'))
+            if r.get('async_not_run'):
+                c.count('asynchronous operations cancelled (not run within 5 s: load / lost datagram)', r['async_not_run'])
             if r['errors'] or r['problems']:
                 c.failures.append(Failure('correspondence', 'scenario %s: %s %s' % (sc['name'], r['errors'][:3], r['problems'][:3]),
                                           replay={'scenario': sc, 'errors': r['errors'], 'problems': r['problems']}))
